@@ -1334,3 +1334,17 @@ fn unsigned_as_usize_bits(n: u64) -> [usize; USIZE_BITS] {
     }
     bits
 }
+
+#[cfg(feature = "verif_hooks")]
+impl CircuitBuilder {
+    pub(crate) fn verif_dump(&self) -> (usize, &[BuilderGate]) {
+        (self.shift, &self.gates)
+    }
+}
+
+#[cfg(feature = "verif_hooks")]
+impl CachedPanicResult {
+    pub(crate) fn verif_result(&self) -> &PanicResult {
+        &self.result
+    }
+}
